@@ -5,6 +5,7 @@ use std::io::{BufRead, Write};
 
 mod pure;
 mod util;
+mod wire;
 
 pub struct St {
     pub rtte: librqbit_utp::verif::RttEstimator,
@@ -15,6 +16,7 @@ fn step(st: &mut St, line: &str) -> String {
     match toks.split_first() {
         Some((&"nop", _)) => "ok".into(),
         Some((&"seqnr", args)) => pure::step_seqnr(args),
+        Some((&"wire", args)) => wire::step_wire(args),
         Some((&"rtte", args)) => pure::step_rtte(&mut st.rtte, args),
         _ => "bad-op".into(),
     }
